@@ -79,6 +79,14 @@ pub enum Consumer {
     StreamSlice,
     /// from_slice::<Value>, then from_value::<Frame>
     ViaValue,
+    /// newline-delimited: every line decoded on its own with from_slice, the consumer carries on after a
+    /// rejected line (so a rejected frame is followed by further decimals parsed by the same thread)
+    Lines,
+    /// the decimals sit behind #[serde(flatten)] (serde buffers them as Content before bigdecimal sees them)
+    FlattenSlice,
+    FlattenReader,
+    /// the decimals sit inside an untagged enum (buffered as Content, replayed to each variant)
+    UntaggedSlice,
 }
 
 impl Consumer {
@@ -91,13 +99,21 @@ impl Consumer {
             Consumer::StreamReader => 4,
             Consumer::StreamSlice => 5,
             Consumer::ViaValue => 6,
+            Consumer::Lines => 7,
+            Consumer::FlattenSlice => 8,
+            Consumer::FlattenReader => 9,
+            Consumer::UntaggedSlice => 10,
         }
     }
     pub fn is_stream(self) -> bool {
         matches!(self, Consumer::StreamReader | Consumer::StreamSlice)
     }
+    /// several frames in one trace
+    pub fn multi(self) -> bool {
+        self.is_stream() || self == Consumer::Lines
+    }
     pub fn uses_reader(self) -> bool {
-        matches!(self, Consumer::FromReader | Consumer::FromReaderBuffered(_) | Consumer::StreamReader)
+        matches!(self, Consumer::FromReader | Consumer::FromReaderBuffered(_) | Consumer::StreamReader | Consumer::FlattenReader)
     }
     pub fn name(self) -> &'static str {
         match self {
@@ -108,6 +124,10 @@ impl Consumer {
             Consumer::StreamReader => "stream_reader",
             Consumer::StreamSlice => "stream_slice",
             Consumer::ViaValue => "via_value",
+            Consumer::Lines => "lines",
+            Consumer::FlattenSlice => "flatten_slice",
+            Consumer::FlattenReader => "flatten_reader",
+            Consumer::UntaggedSlice => "untagged_slice",
         }
     }
 }
@@ -186,6 +206,10 @@ pub fn gen_value(rng: &mut Rng) -> Dec {
         }
         // zero with positive and negative scales
         2 => {
+            if rng.chance(1, 4) {
+                let base = 150_000 + rng.range(-2, 2);
+                return Dec::new(false, "0", if rng.chance(1, 2) { base } else { -base });
+            }
             let scale = match rng.below(4) {
                 0 => rng.range(-15, -1),
                 1 => rng.range(1, 12),
@@ -298,7 +322,31 @@ pub fn gen_numeral(rng: &mut Rng) -> String {
 }
 
 /// A JSON fragment for a decimal field: number, numeric string, malformed numeral (bare or quoted), other JSON
+/// long strings that are not numbers, with multi-byte characters at every offset class (error paths
+/// that quote or truncate their input must not split a character)
+pub fn gen_garbage(rng: &mut Rng) -> String {
+    let pieces = ["12500.00 net", "€", "é", "14875.00", " inc VAT ", "٣", "1e5", "0.-777", "e99999999999999999999", "\u{a0}", "approx", "１２３", "-", ".", "7"];
+    let target = 20 + rng.below(120) as usize;
+    let mut s = String::new();
+    while s.len() < target {
+        let piece: &str = *rng.pick(&pieces);
+        s.push_str(piece);
+        if rng.chance(1, 3) {
+            s.push((b'0' + rng.below(10) as u8) as char);
+        }
+    }
+    s
+}
+
 pub fn gen_fragment(rng: &mut Rng, allow_null: bool) -> String {
+    if rng.chance(1, 40) {
+        return format!("\"{}\"", gen_garbage(rng));
+    }
+    if rng.chance(1, 40) {
+        // zero with an exponent at, just inside and just beyond the adapters' limit
+        let e = 150_000 - 2 + rng.below(5);
+        return format!("{}0{}e{}{}", if rng.chance(1, 4) { "-" } else { "" }, if rng.chance(1, 2) { ".000" } else { "" }, if rng.chance(1, 2) { "-" } else { "" }, e);
+    }
     match rng.below(20) {
         0..=10 => gen_numeral(rng),
         11..=13 => format!("\"{}\"", gen_numeral(rng)),
@@ -377,6 +425,9 @@ pub fn gen_ioplan(rng: &mut Rng, approx_len: u64, reader: bool, allow_hard: bool
 
 pub fn gen_token(rng: &mut Rng) -> Token {
     let text = |rng: &mut Rng| -> String {
+        if rng.chance(1, 12) {
+            return gen_garbage(rng);
+        }
         match rng.below(7) {
             0 => rng.pick(&MALFORMED).to_string(),
             6 => {
